@@ -72,7 +72,7 @@ def unit_btp_btf(sizes, gamma_mode):
             if gamma_mode == "custom":
                 G = game.uf("U_gamma", 5)
 
-                def gamma(c, k, mu, sigma_squared, team, rank, _G=G):
+                def gamma(c, k, mu, sigma_squared, team, rank, /, *, _G=G):
                     from ..symrt import term, KFLOAT
                     return SymNum(_G(term(c), term(k), term(mu), term(sigma_squared), term(rank)), KFLOAT)
                 kw["gamma"] = gamma
